@@ -1117,7 +1117,12 @@ def replay(path):
         print("model:", m)
         print("impl: ", i)
         print("spec: ", spec_run(c["program"]))
-        return 0 if agree(m, i) else 1
+        ok = agree(m, i)
+        if "order" in c:
+            ip = run_impl(impl, c["program"], c["order"])
+            print("impl, impl blocks permuted %s: %s" % (c["order"], ip))
+            ok = ok and ip == i
+        return 0 if ok else 1
     if "source" in c:
         rc, o, e = common.run_cb(impl, c["source"])
         print(o, e[-500:], rc)
